@@ -225,6 +225,28 @@ def _tree_invariants(c: Case, mode: str, pairs) -> list[str]:  # noqa: PLR0912
     fl = list(pairs.flatten())
     if len(fl) != len(pre) or any(a is not b for a, b in zip(fl, pre)):
         bad.append("flatten() is not the pre-order")
+    # the same accessors on every inner(): flatten() pre-order, tokens() balanced, len / indexing / iteration agree
+    for p in pre:
+        if not p.children:
+            continue
+        inner = p.inner()
+        sub: list = []
+
+        def walk2(q, sub=sub):
+            sub.append(q)
+            for ch in q.children:
+                walk2(ch)
+
+        for ch in p.children:
+            walk2(ch)
+        got = list(inner.flatten())
+        if len(got) != len(sub) or any(a is not b for a, b in zip(got, sub)):
+            bad.append(f"{p.name}.inner().flatten() is not the pre-order of its children")
+        if len(inner) != len(p.children) or [inner[i] for i in range(len(inner))] != list(p.children):
+            bad.append(f"{p.name}.inner(): len / indexing disagree with children")
+        toks = list(inner.tokens())
+        if len(toks) != 2 * len(sub):
+            bad.append(f"{p.name}.inner().tokens() has {len(toks)} tokens for {len(sub)} pairs")
     if start_mod is not None and start_mod != "_":
         if len(pairs) != 1 or pairs[0].start != k or pairs[0].name != c.rule:
             bad.append(f"non-silent start rule yields {len(pairs)} root pair(s) / wrong start")
